@@ -507,3 +507,54 @@ QuadtreeGetIndexOf.requires = staticmethod(_qgio_requires)
 QuadtreeGetIndexOf.ensures = staticmethod(_qgio_ensures)
 QuadtreeGetIndexOf.result = staticmethod(_qgio_result)
 QuadtreeGetIndexOf.accepts = staticmethod(lambda c, self, lons, lats, _b=None: isinstance(lons, Arr) and isinstance(lats, Arr))
+
+
+# ---------------------------------------------------------------------------------------------------
+# cell areas: the spherical-band formula and its additivity (the inductive step of "the areas add up to the covered band")
+# ---------------------------------------------------------------------------------------------------
+import math as _math      # noqa: E402
+from pyvc.lib import COS      # noqa: E402
+from pyvc.core import rv      # noqa: E402
+
+AREA = 'csep.core.regions.geographical_area_from_bounds'
+
+
+def area_spec(lon1, lat1, lon2, lat2):
+    rad = rv(_math.pi / 180.0)        # the code's constant, a double
+    cap = lambda lat: 2 * rv(_math.pi) * (1 - COS((rv(90.0) - lat) * rad))
+    return z3.If(z3.Or(lon1 == lon2, lat1 == lat2), z3.RealVal(0),
+                 (cap(lat1) - cap(lat2)) * rv(6371.0 ** 2) / (rv(360.0) / (lon2 - lon1)))
+
+
+@contract
+class GeographicalArea:
+    qualname = AREA
+    case = 'any bounds'
+    properties = ('C17',)
+
+    def params(c):
+        return dict(lon1=c.real('lon1'), lat1=c.real('lat1'), lon2=c.real('lon2'), lat2=c.real('lat2'))
+
+    def ensures(c, r, lon1, lat1, lon2, lat2):
+        yield 'area == (cap(lat1) - cap(lat2)) * R^2 * (lon2 - lon1) / 360 on the sphere of radius 6371 km, 0 for a degenerate box', \
+            to_real(r) == area_spec(lon1, lat1, lon2, lat2)
+
+    def result(c, lon1, lat1, lon2, lat2):
+        v = c.ctx.fresh_real('area')
+        return v
+
+
+@contract
+class AreaAdditive:
+    """a cell split into four children (two longitude halves x two latitude parts, as a quadtree tile is): the areas of the children
+    add up to the area of the cell - the inductive step of 'cell areas add up to the area of the covered latitude band'"""
+    qualname = 'lemma:C17:the areas of the four children of a cell add up to its area'
+    case = 'five modular calls'
+    properties = ('C17',)
+
+    def lemma(c):
+        w, e, s, n, xm, ym = (c.real(k) for k in ('west', 'east', 'south', 'north', 'lon_mid', 'lat_mid'))
+        c.ctx.assume(z3.And(w < xm, xm < e, s < ym, ym < n))
+        whole = c.call(AREA, w, s, e, n)
+        parts = [c.call(AREA, a0, b0, a1, b1) for (a0, a1) in ((w, xm), (xm, e)) for (b0, b1) in ((s, ym), (ym, n))]
+        yield 'the children add up to the parent', to_real(parts[0]) + to_real(parts[1]) + to_real(parts[2]) + to_real(parts[3]) == to_real(whole)
